@@ -120,9 +120,9 @@ def mk_undeleg(n):
             ctx.require(st2, amt <= tot, 'a request above the total must fail', 'und:Ok-but-too-big', mv, A)
             ctx.require(st2, sum(ul) == amt, 'plan removes exactly the requested amount', 'und:sum', mv, A)
             ctx.require(st2, z3.And(*[z3.And(ul[i] >= 0, ul[i] <= d[i]) for i in range(n)]),
-                        'never more from a validator than it holds', 'holding', mv, A)
+                        'never more from a validator than it holds', 'und:holding', mv, A)
             ctx.require(st2, z3.And(*[z3.Implies(ul[i] != 0, d[i] - ul[i] >= floor) for i in range(n)]),
-                        'no validator pushed below floor(T\'/n)', 'pushed-below', mv, A)
+                        'no validator pushed below floor(T\'/n)', 'und:pushed-below', mv, A)
             if nok <= 2:
                 ctx.witness('Ok path n=%d with amount>0' % n, st2, [inside, amt > 0], mv)
         if n > 0:
